@@ -8,6 +8,7 @@ from .. import fields, paths
 from ..core import FUNC, call_attr, calls_in, const, dotted, is_const, kwarg, norm, slice_parts, text, walk_local
 
 EXPLANATION = [
+    'C10.parse-guard: every site that hands received bytes to the server dispatcher parses them inside try/except whose handler sends, for an opcode in ATT_REQUESTS only, an Error Response naming that opcode (Invalid PDU); the fixed ATT channel and the EATT sink both enter through it.',
     'C10.accessor-contained: in Attribute.read_value/write_value every call of an application value accessor (and the await of its result) and of the adapters\' value codecs (decode_value of what the peer wrote, encode_value of what is read) is inside try/except Exception that re-raises as ATT_Error, which is what makes "handlers only see ATT_Error" true for C10.once.',
     'C10.mtu-agreement: after an MTU exchange the server adopts min(value it announced, client_rx_mtu) and the client min(value it sent, server_rx_mtu): the same number on both sides, which every budget rule below relies on.',
     'C10.classify: ATT_REQUESTS/ATT_RESPONSES are paired (response opcode = request + 1), commands carry bit 6 and are not requests; '
@@ -134,6 +135,14 @@ def classify(ctx):
         res = paths.run(disp, dom, (True, True, True, 0))
         got = {v[3] for k, st in res.items() for v in st if 'except' in ' '.join(st[v])}
         R.check(got == {1}, rule, f'{SRV}.on_gatt_pdu | synchronous handler raises {label}', 'one Error Response', f'handler raising {label}: {sorted(got)} responses sent by the dispatcher', p.loc(disp))
+    # a synchronous handler of a *non-request* (a confirmation) that raises: the dispatcher must not answer it
+    for dom, label in ((DR(), 'ATT_Error'), (DX(), 'other exception')):
+        res = paths.run(disp, dom, (True, False, True, 0))
+        got = {v[3] for k, st in res.items() for v in st if 'except' in ' '.join(st[v])}
+        if label == 'ATT_Error':
+            continue  # handlers of non-requests never raise ATT_Error themselves (they do not go through the permission gate)
+        R.check(got == {0}, rule, f'{SRV}.on_gatt_pdu | handler of a non-request raises {label}', 'nothing is sent',
+                f'when the handler of a command or confirmation raises, the dispatcher sends {sorted(got)} Error Response(s): a non-request is answered', p.loc(disp))
     res = paths.run(gen, RespCount(), 0)
     got = set(paths.normal_exits(res))
     R.check(got == {1}, rule, f'{SRV}.on_att_request', 'generic handler sends exactly one Error Response', f'generic handler sends {sorted(got)} responses', p.loc(gen))
@@ -421,8 +430,22 @@ def indication_slot(ctx, rule='C10.indication-slot'):
         R.check(bool(waits) and all('wait_for' in norm(w) for w in waits), rule, f'{SRV}._indicate_single_bearer | confirmation awaited with timeout', 'awaits the confirmation under wait_for', 'the confirmation is not awaited (or awaited without a timeout) while the semaphore is held', p.loc(c))
     conf = srv.methods.get('on_att_handle_value_confirmation')
     if conf is not None:
-        ok = any(isinstance(c.func, ast.Attribute) and c.func.attr == 'set_result' for c in calls_in(conf)) and 'self.pending_confirmations[bearer]' in norm(conf)
+        src_ = norm(conf)
+        ok = any(isinstance(c.func, ast.Attribute) and c.func.attr == 'set_result' for c in calls_in(conf)) and ('self.pending_confirmations[bearer]' in src_ or 'self.pending_confirmations.get(bearer)' in src_)
         R.check(ok, rule, f'{SRV}.on_att_handle_value_confirmation', 'settles the bearer\'s pending confirmation', 'a confirmation does not settle the pending indication of its bearer', p.loc(conf))
+        # ... and only a pending one: a duplicate confirmation finds the future done, set_result would raise and the
+        # dispatcher's catch-all would answer the confirmation with an Error Response
+        sets = [c for c in calls_in(conf) if isinstance(c.func, ast.Attribute) and c.func.attr == 'set_result']
+        guarded = True
+        for c in sets:
+            fut = dotted(c.func.value)
+            top = c
+            while getattr(top, '_parent', None) is not conf:
+                top = top._parent
+            early = [s_ for s_ in conf.body[:conf.body.index(top)] if isinstance(s_, ast.If) and f'{fut}.done()' in norm(s_.test) and s_.body and isinstance(s_.body[-1], ast.Return)]
+            inline = any(norm(t) == f'{fut}.done()' and not pol for t, pol in paths.flat_guards(c))
+            guarded = guarded and (bool(early) or inline)
+        R.check(bool(sets) and guarded, rule, f'{SRV}.on_att_handle_value_confirmation | only a pending future', 'set_result is reached only when the future is not done', 'a duplicate confirmation reaches set_result on a future that is already done: InvalidStateError, answered by the dispatcher with an Error Response to a confirmation', p.loc(conf))
 
 
 
@@ -465,6 +488,53 @@ def mtu_agreement(ctx):
 
 
 
+def parse_guard(ctx):
+    """Bytes that cannot be parsed into an ATT PDU are still answered when their opcode is a request: every way received
+    bytes reach the server's dispatcher goes through a parse whose failure sends an Error Response for requests only."""
+    R, p = ctx.r, ctx.p
+    rule = 'C10.parse-guard'
+    srv = p.cls(SRV)
+    if srv is None:
+        R.bad(rule, SRV, 'anchor missing')
+        return
+    # 1. who hands a parsed PDU to Server.on_gatt_pdu
+    n = 0
+    for mod in ('bumble.device', 'bumble.gatt_server'):
+        m = p.modules.get(mod)
+        for c in (ast.walk(m.tree) if m else []):
+            if not (isinstance(c, ast.Call) and call_attr(c) == 'on_gatt_pdu' and ('gatt_server' in (dotted(c.func) or '') or (dotted(c.func) == 'self.on_gatt_pdu' and p.qual_of(c).startswith(SRV)))):
+                continue
+            n += 1
+            fn = next((a for a in _anc(c) if isinstance(a, FUNC)), None)
+            arg = c.args[1] if len(c.args) > 1 else None
+            parsed_here = arg is not None and (('from_bytes' in norm(arg)) or (isinstance(arg, ast.Name) and fn is not None and any(isinstance(x, ast.Assign) and dotted(x.targets[0]) == arg.id and 'from_bytes' in norm(x.value) for x in ast.walk(fn))))
+            if not parsed_here:
+                R.ok(rule, f'{p.qual_of(c)} | hands over a PDU object', 'no parse at this site', f'{mod}:{c.lineno}')
+                continue
+            # the parse must be contained: a Try around from_bytes whose handler answers requests
+            parse = [x for x in ast.walk(fn) if isinstance(x, ast.Call) and call_attr(x) == 'from_bytes' and 'ATT_PDU' in norm(x.func)]
+            contained = False
+            for x in parse:
+                for a in _anc(x):
+                    if isinstance(a, ast.Try) and any(x is y for s_ in a.body for y in ast.walk(s_)):
+                        for h in a.handlers:
+                            resp = [r for r in ast.walk(h) if isinstance(r, ast.Call) and call_attr(r) == 'ATT_Error_Response']
+                            guards = [(norm(t), pol) for r in resp for t, pol in paths.flat_guards(r, stop=h)]
+                            if resp and any('ATT_REQUESTS' in t and pol for t, pol in guards) and all(kwarg(r, 'request_opcode_in_error') is not None and norm(kwarg(r, 'request_opcode_in_error')).endswith('[0]') for r in resp):
+                                contained = True
+            R.check(contained, rule, f'{p.qual_of(c)} | parse guarded', 'the parse is inside try/except that answers an unparseable request (and only a request) with an Error Response naming its opcode',
+                    'received bytes are parsed outside any handler that answers: a truncated request raises before the dispatcher is reached and is never answered (the client waits for its timeout)', f'{m.rel}:{c.lineno}')
+    R.check(n >= 1, rule, 'sites feeding Server.on_gatt_pdu', f'{n} call site(s)', f'no call site of Server.on_gatt_pdu found')
+    # 2. the fixed-channel entry point and the EATT sink use the guarded entry
+    dev = p.find('bumble.device.Device.on_gatt_pdu')
+    re_ = p.find(f'{SRV}.register_eatt')
+    for q, fn in (('bumble.device.Device.on_gatt_pdu', dev), (f'{SRV}.register_eatt', re_)):
+        if fn is None:
+            R.bad(rule, q, 'anchor missing')
+            continue
+        R.check(any(call_attr(c) == 'on_gatt_pdu_bytes' for c in ast.walk(fn) if isinstance(c, ast.Call)), rule, f'{q} | uses the guarded entry', 'received bytes go to Server.on_gatt_pdu_bytes', 'received bytes bypass the guarded parse', p.loc(fn))
+
+
 def accessor_contained(ctx):
     """What an application's value accessor raises reaches the request handlers only as ATT_Error."""
     R, p = ctx.r, ctx.p
@@ -499,6 +569,7 @@ def accessor_contained(ctx):
 
 
 RULES = [
+    ('C10.parse-guard', parse_guard),
     ('C10.accessor-contained', accessor_contained),
     ('C10.mtu-agreement', mtu_agreement),
     ('C10.classify', classify),
